@@ -129,8 +129,19 @@ pub struct Index {
     pub methods: HashMap<(String, String), String>,
     pub fns: HashMap<String, String>,
     pub consts: HashMap<String, String>,
+    /// initialisers of small module-level const/static arrays (resolved when iterated or indexed)
+    pub const_exprs: HashMap<String, syn::Expr>,
     pub aliases: HashMap<String, String>,
     items: Vec<Value>,
+}
+
+/// An array literal (possibly behind `&`) of at most 16 elements: a data table a loop may be unrolled over.
+pub fn small_table(e: &syn::Expr) -> bool {
+    match e {
+        syn::Expr::Reference(r) => small_table(&r.expr),
+        syn::Expr::Array(a) => a.elems.len() <= 16,
+        _ => false,
+    }
 }
 
 pub fn attrs_json(attrs: &[syn::Attribute]) -> Vec<String> {
@@ -187,6 +198,7 @@ impl Index {
             methods: HashMap::new(),
             fns: HashMap::new(),
             consts: HashMap::new(),
+            const_exprs: HashMap::new(),
             aliases: HashMap::new(),
             items: Vec::new(),
         };
@@ -249,6 +261,9 @@ impl Index {
                         continue;
                     }
                     self.consts.insert(c.ident.to_string(), norm_ty(&c.ty));
+                    if small_table(&c.expr) {
+                        self.const_exprs.insert(c.ident.to_string(), (*c.expr).clone());
+                    }
                     self.items.push(json!({"kind":"const","name":c.ident.to_string(),"file":rel,"mod":modpath,"line":c.span().start().line,"ty":norm_ty(&c.ty),"vis":vis_str(&c.vis),"expr":tok(&c.expr),"strings":string_lits(&c.expr)}));
                 }
                 syn::Item::Static(c) => {
